@@ -469,6 +469,9 @@ def run(chk, n_asts, maxdepth, vm_n, nonconst_n):
                           "of the Casbin tokens (layout changed the expression)")
     chk.extra["token_level_cases_multiline"] = n_multi
     stratum_mixed_suffix(chk)
+    # the role function g() with TWO rule-side arguments and names that are concatenations of each other
+    from .c05 import stratum_confusable_names
+    stratum_confusable_names(chk, 40)
     # the hypotheses of C02_pipeline_tokens(_ast) hold on the generated cases (wf_tokens, admissible), and
     # Gallina's render agrees with the harness renderer
     hyp = [c for c in tok_cases if c.get("gaps")]
